@@ -19,6 +19,7 @@ AllContainerPaths(v, pre) ==
   \cup CASE v[1] \in {"list", "tuple", "deque"} -> UNION { AllContainerPaths(v[2][i], Append(pre, i)) : i \in DOMAIN v[2] }
          [] v[1] \in {"dict", "OrderedDict", "defaultdict", "Counter"} -> UNION { AllContainerPaths(v[2][i][2], Append(pre, i)) : i \in DOMAIN v[2] }
          [] v[1] = "obj" -> UNION { AllContainerPaths(v[3][i], Append(pre, i)) : i \in DOMAIN v[3] }
+         [] v[1] = "sobj" -> AllContainerPaths(v[3], Append(pre, 1))          \* the value a SerializableType wrapper holds (and hands out)
          [] OTHER -> {}
 
 RECURSIVE AnyPaths(_, _, _)
@@ -30,6 +31,7 @@ AnyPaths(T, v, pre) ==
     [] T[1] = "tuple" -> UNION { AnyPaths(T[2][i], v[2][i], Append(pre, i)) : i \in DOMAIN T[2] }
     [] T[1] \in {"dict", "odict", "ddict", "mapping", "mmapping"} -> UNION { AnyPaths(T[3], v[2][i][2], Append(pre, i)) : i \in DOMAIN v[2] }
     [] T[1] = "opt" -> IF IsNone(v) THEN {} ELSE AnyPaths(T[2], v, pre)
+    [] T[1] = "stype" -> AnyPaths(T[3], v[3], Append(pre, 1))
     [] T[1] = "union" -> LET hits == { i \in DOMAIN T[2] : MatchesTag(T[2][i], v) } IN
                          IF hits = {} THEN {} ELSE AnyPaths(T[2][CHOOSE i \in hits : \A k \in hits : i <= k], v, pre)
     [] OTHER -> {}
@@ -44,6 +46,8 @@ SharedPaths(T, cx, v, pre) ==
     [] T[1] = "tuple" -> UNION { SharedPaths(T[2][i], ElemCx(cx), v[2][i], Append(pre, i)) : i \in DOMAIN T[2] }
     [] T[1] \in {"dict", "odict", "ddict", "mapping", "mmapping"} -> UNION { SharedPaths(T[3], ElemCx(cx), v[2][i][2], Append(pre, i)) : i \in DOMAIN v[2] }
     [] T[1] = "opt" -> IF IsNone(v) THEN {} ELSE SharedPaths(T[2], cx, v, pre)
+    \* what _serialize() hands out is converted by its return annotation like any value of that type: copied unless no_copy says otherwise
+    [] T[1] = "stype" -> SharedPaths(T[3], ElemCx(cx), v[3], Append(pre, 1))
     [] T[1] = "union" -> LET hits == { i \in DOMAIN T[2] : MatchesTag(T[2][i], v) } IN
                          IF hits = {} THEN {} ELSE SharedPaths(T[2][CHOOSE i \in hits : \A k \in hits : i <= k], cx, v, pre)
     [] OTHER -> {}
